@@ -488,6 +488,12 @@ def solve(a, b):
 
 @solve.register(FermionicArray)
 def solve_fermionic(a, b):
+    # the blocks themselves are solved with: need actual phases inserted
+    if a.phases:
+        a = a.phase_sync()
+    if getattr(b, "phases", None):
+        b = b.phase_sync()
+
     x = solve.dispatch(AbelianArray)(a, b)
 
     if x.indices[0].dual:
